@@ -6,6 +6,21 @@ From Oras Require Import Base.Prelude Base.Regex Generated.GC20 Generated.GC13 M
   Model.Registry Model.RemoteClient Model.RemoteSpec Proofs.Reference.
 Require Import Lia.
 
+(* C20's lemmas, at the instance "every digest algorithm is available" (Model/Registry.v) *)
+Lemma c13_repo_parse_result vr breg brepo s r :
+  repo_parse vr breg brepo s = Some r ->
+  r_registry r = breg /\ r_repository r = brepo /\ r_reference r <> [] /\
+  (valid_tag (r_reference r) = true \/ valid_digest (r_reference r) = true).
+Proof. exact (repo_parse_result_in_base all_algs vr breg brepo s r). Qed.
+
+Lemma c13_repo_parse_digest vr breg brepo d :
+  valid_digest d = true -> repo_parse vr breg brepo d = Some (mkRef breg brepo d).
+Proof. exact (Proofs.Reference.repo_parse_digest all_algs vr breg brepo d). Qed.
+
+Lemma c13_repo_parse_tag vr breg brepo t :
+  valid_tag t = true -> repo_parse vr breg brepo t = Some (mkRef breg brepo t).
+Proof. exact (Proofs.Reference.repo_parse_tag all_algs vr breg brepo t). Qed.
+
 Ltac break_in H :=
   match type of H with
   | context [match ?x with _ => _ end] => destruct x eqn:?
@@ -102,15 +117,15 @@ Section ClientFacts.
   Lemma resolve_ref_valid s rf : resolve_ref main s = Some rf -> valid_ref rf = true.
   Proof.
     unfold resolve_ref. destruct (repo_parse _ _ _ s) as [r|] eqn:E; [|discriminate].
-    intro X. injection X as <-. apply repo_parse_result_in_base in E as (_ & _ & _ & [V|V]);
+    intro X. injection X as <-. apply c13_repo_parse_result in E as (_ & _ & _ & [V|V]);
       unfold valid_ref; rewrite V; auto using orb_true_r.
   Qed.
 
   Lemma resolve_ref_digest d : valid_digest d = true -> resolve_ref main d = Some d.
-  Proof. intro V. unfold resolve_ref. now rewrite repo_parse_digest. Qed.
+  Proof. intro V. unfold resolve_ref. now rewrite c13_repo_parse_digest. Qed.
 
   Lemma resolve_ref_tag t : valid_tag t = true -> resolve_ref main t = Some t.
-  Proof. intro V. unfold resolve_ref. now rewrite repo_parse_tag. Qed.
+  Proof. intro V. unfold resolve_ref. now rewrite c13_repo_parse_tag. Qed.
 
   (* ---- allowed, function by function ---- *)
 
